@@ -3,7 +3,7 @@ CONSTANTS
   KVs = {1}
   NReg = 1
   Keys = {"k1"}
-  MaxSize = 12
+  MaxSize = 14
   MaxT = 2
   Phases <- query_q_Phases
   ShapeSet <- query_q_Shapes
